@@ -155,7 +155,7 @@ Pieces == {<<"B", "B", "n">>, <<"B", "n">>, <<"N">>, <<"a">>, <<"B">>, <<"E">>}
 PieceSeqs == UNION {[1..k -> Pieces] : k \in 1..3}
 LineCases3 ==
     {[fam |-> "lines", carrier |-> car, s |-> Concat(ps), lines |-> Lines(Concat(ps))] :
-        car \in {"text-attr", "content", "cdata-content", "text-element"}, ps \in PieceSeqs}
+        car \in {"text-attr", "content", "cdata-content", "text-element", "mixed-content"}, ps \in PieceSeqs}
 
 RECURSIVE Join(_)
 Join(ls) == IF Len(ls) = 1 THEN ls[1] ELSE ls[1] \o <<"N">> \o Join(Tail(ls))
